@@ -15,7 +15,7 @@ CLAIMED = {
  "C10": ("exploration", "scenario workload + bounded-progress and end-state monitor",
    "Scaling scenarios driven to completion with random commit order taken from the served limited view, interleaved failovers/re-registrations/rebalances and refused requests; bounded progress is counted in commits, never in wall-clock time.",
    "section 2, C10"),
- "C11": ("exploration", "schedule injection at hook points + offline checker over the totally ordered event log",
+ "C11": ("exploration", "schedule injection at hook points + offline checker over the totally ordered event log; thorough tier adds a Miri leg (free-running threads, data-race / UB detection in crossbeam-channel, dashmap, arc-swap, atomics)",
    "The real TaskBlockingQueue driven by sender / controller / backend threads; a cooperative scheduler installed at the verif_point hooks (one per shared-memory access in blocking.rs and biatomic.rs) samples interleavings uniformly and PCT-style; the log is checked for hand-overs inside the barrier window, exactly-once handling, premature re-dispatch and lost wake-ups.",
    "section 2, C11"),
  "C12": ("exploration", "invariant monitor on /metadata snapshots + panic capture",
@@ -33,7 +33,7 @@ CLAIMED = {
  "C08": ("fault_enumeration", "exactly-once / reply-origin checker over recorded request-reply histories with injected connection faults",
    "The real backend sender stack over in-memory byte pipes to a scripted backend that fragments, stalls and breaks connections at every position (before read, mid-request, after execute, mid-reply, refused reconnect) under all batching strategies and connection counts; plus real TCP sessions with fragmented pipelines. Every request must end with exactly one result whose payload is joined with the backend's exchange log.",
    "section 2, C08"),
- "C09": ("exploration", "differential monitor: independent CRC16/hash-tag model + backend execution logs",
+ "C09": ("exploration", "differential monitor: independent CRC16/hash-tag model + backend execution logs; thorough tier adds a Miri leg on the slot/hash-tag/RangeMap code",
    "Generated slot layouts installed through UMCTL SETCLUSTER on a real proxy; random/binary/brace/slot-targeted keys; every probe is judged by an independent slot model and by which FakeRedis node executed what.",
    "section 2, C09"),
  "C03": ("exploration", "recorded client histories + per-key linearizability checker + final-placement monitor",
@@ -45,19 +45,19 @@ CLAIMED = {
  "C20": ("exploration", "end-to-end differential monitor (client bytes vs. bytes stored in the Redis stand-in)",
    "Whole path broker -> coordinator encoding -> two real proxies -> FakeRedis; every writer/reader pair, value class, strategy and redirect mode; stored bytes are zstd-decoded and compared, replies compared byte-for-byte, restricted commands must be refused and not executed.",
    "section 2, C20"),
- "C13": ("fault_enumeration", "crash-point injection on the broker's persisted state + convergence monitor on the whole simulated system",
+ "C13": ("fault_enumeration", "crash-point injection on the broker's persisted state + convergence monitor on the whole simulated system, plus the production recover_epoch() over loopback TCP against real proxy listeners",
    "System histories with the production JsonFileStorage persisting after every operation; the broker is replaced by a new one loaded from an earlier file (crash point), epoch recovery runs with the proxies' maximum epoch and the real coordinator components are driven against it; served epochs, bounded convergence, partition and routing are checked.",
    "section 2, C13"),
  "C14": ("exploration", "whole-system monitor: parsed topology replies vs broker view, task state and routing probes",
    "Frozen-phase migration scenarios and hand-built layouts; CLUSTER NODES/SLOTS of every member proxy parsed per slot in each state and compared with the broker view, the proxy's own migration task state and routing probes.",
    "section 2, C14"),
- "C15": ("exploration", "differential monitor against a strict reference RESP parser/encoder",
+ "C15": ("exploration", "differential monitor against a strict reference RESP parser/encoder; thorough tier adds a Miri leg over the BytesMut split/freeze paths of the decoders",
    "Generated values and pipelines, every 1-cut split of short streams plus random k-cut splits, through all eight decoder entry points (incl. RespCodec under FramedRead and the paired multi codec) and seven encoder entry points; negative inputs judged by the reference parser.",
    "section 2, C15"),
- "C16": ("exploration", "out-of-process crash / panic / CPU-budget / RSS monitor with a canary connection",
+ "C16": ("exploration", "out-of-process crash / panic / CPU-budget / RSS monitor with a canary connection; thorough tier adds a valgrind memcheck leg on the proxy child",
    "The real ServerProxyService in a child process is fed a hostile corpus (raw RESP with extreme length prefixes and nesting, every command family with extreme/missing/non-UTF-8 arguments) before and after metadata; the parent watches exit status, a panic marker file, reply-or-close against the child's CPU time, peak RSS and a canary connection.",
    "section 2, C16"),
- "C17": ("exploration", "round-trip monitor over captured coordinator traffic + structure-aware mutation of wire encodings",
+ "C17": ("exploration", "round-trip monitor over captured coordinator traffic + structure-aware mutation of wire encodings; thorough tier adds a Miri leg over the parsers (base64 / gzip / JSON path)",
    "Every distinct broker per-proxy view is pushed through the coordinator's real sender and the proxy's real parsers; generated values round-trip through both encodings; all truncations/deletions/corruptions of role-annotated argument vectors are classified (rejected / accepted-equal / accepted-different by class signature).",
    "section 2, C17"),
  "C18": ("exploration", "history monitor with injected report ages",
@@ -95,7 +95,7 @@ def main():
             na.append({"property_id": pid, "reason": NOT_YET.get(pid, "check not built yet in this revision of /verif (planned in DESIGN.md)")})
     m = {
         "version": 1,
-        "setup_cmd": "cd /verif/harness && CARGO_NET_OFFLINE=true cargo build --offline -q",
+        "setup_cmd": "cd /verif/harness && CARGO_NET_OFFLINE=true cargo build --offline -q && (MIRIFLAGS=-Zmiri-disable-isolation CARGO_NET_OFFLINE=true cargo +nightly miri run --offline -q --bin umv_miri -- c09 1 1 >/dev/null 2>&1 || echo 'note: Miri prebuild failed; the thorough checks of C09 C11 C15 C17 will report it as inconclusive')",
         "hooks": {
             "guard": "cargo feature `verif` of the undermoon crate (off by default)",
             "enable": "the harness depends on undermoon = { path = \"/repo\", features = [\"verif\"] }; ./check rebuilds it from /repo's working tree on every call",
